@@ -545,7 +545,8 @@ def run(ck):
                     control = not (ka == km or {ka, km} <= {"U", "L", "M", "K", "D"})
                     if ka == km and ka in ("E", "R", "K", "U") and ea[d].split()[1] != em[d].split()[1]:
                         control = True      # same hook, different value of iter
-                    site = BASE if control else SITE[s]
+                    # the norm / its report / the convergence test belong to the base class
+                    site = BASE if (control or ka in ("N", "S", "C")) else SITE[s]
                     report("corr:%s:%s" % (site, "control-flow" if control else "values"),
                            "trace of the real %s solver differs from the model at event %d (%s vs %s); the property's predicate still holds on the implementation trace"
                            % (s, d, ea[d] if d < len(ea) else "-", em[d] if d < len(em) else "-"),
